@@ -2,7 +2,8 @@
 # Must-fail corpus: every patch under selftest/mutants (and seeded/*/patch.diff) is applied to a scratch copy of /repo;
 # the check of the property named in the file name (Cxx-...) must then report a VIOLATION.
 # usage: selftest/run.sh [pattern]
-cd /verif || exit 2
+V=$(cd "$(dirname "$0")/.." && pwd)
+cd "$V" || exit 2
 pat="${1:-}"
 fail=0
 for p in selftest/mutants/*${pat}*.patch seeded/*${pat}*/patch.diff; do
@@ -13,8 +14,8 @@ for p in selftest/mutants/*${pat}*.patch seeded/*${pat}*/patch.diff; do
   esac
   d=$(mktemp -d "${TMPDIR:-/tmp}/gabi-mut-XXXXXX")
   cp -r /repo/. "$d"/
-  if ! git -C "$d" apply "/verif/$p" 2>/dev/null; then
-    echo "SKIP $p (does not apply to the current tree)"
+  if ! git -C "$d" apply "$V/$p" 2>/dev/null; then
+    echo "SKIP $p (does not apply to the current tree)"; fail=1
     rm -rf "$d"; continue
   fi
   o=$(mktemp -d "${TMPDIR:-/tmp}/gabi-mut-out-XXXXXX")
